@@ -219,6 +219,9 @@ def run(tier, seed, replay=None):
              "keywords": {}}
     docs = [json.load(open(replay))["schema"]] if replay else list(TEMPLATES)
     if not replay:
+        from props.c02 import minimal_modules
+        docs += [copy.deepcopy(files["main.json"]) for files, _ in minimal_modules()]      # each kind of sub-schema exactly once, in each position
+    if not replay:
         for _ in range(150 if tier == "quick" else 3000):
             s = gen.gen_schema(rng, gen.Cfg(max_depth=3, p_default=0.3))
             if isinstance(s, dict):
